@@ -75,6 +75,7 @@ def register_in_group(
         if pg_ref.name not in pgroup._VERSIONS:
             pgroup._VERSIONS[pg_ref.name] = []
         pgroup._VERSIONS[pg_ref.name].append(pg_ref)
+        pgroup._VERSIONS[pg_ref.name].sort()
 
         pgroup._load_plugin(ep_name, plugin)
         if not violently:
